@@ -7,13 +7,20 @@ mapping against Model/Osu.lean; specification: Spec/Osu.lean (`IsColumn`, `denot
 claims
   col     x -> column and column -> x for one (K, x) / (K, c)         (thorough: + exhaustive 18 x 512 tables)
   line    one line through read_string of hit/hold/bpm/sv/sample, incl. malformed ones (error enum)
-  read    a .osu text of the dialect -> chart:  impl ~ model (C),  impl ~ Spec.denote (S)
+  read    a .osu text of the dialect -> chart:  impl ~ model (C),  impl ~ Spec.denote (S); half of the cases go through the
+          FILE entry point (OsuMap.read_file on a temp file holding exactly the text, utf-8) — model: decode, universal
+          newlines, split("\n"), read
   badtext a malformed text: error enum only
   write   a chart -> text: impl text == model tokens rendered (C); Spec.denote(impl text) ~ quantize(chart) and
           OsuMap.read(impl text) ~ quantize(chart) (S)
   cycle   4 write/read generations: every later generation ~ the first written one; text 3 == text 2
+  (write / cycle: half of the cases through write_file + read_file)
+U+2028, U+2029, U+0085, \x0b, \x0c, \x1c-\x1e (line ends for str.splitlines(), not for the format) are placed inside
+metadata values, tags and file names; Python's str.strip() — and the model's `strip` — remove them (and \x1f, \xa0,
+U+3000 ...) only at the ends of a line or value.
 """
 import math
+import os
 from fractions import Fraction as Fr
 
 from lib.rat import R, F, close, dev
@@ -26,7 +33,8 @@ THOROUGH_BUDGET_S = 900
 RULE = ("texts of the v14 mania dialect: K in 1..18, x anywhere inside a column's range, integer/decimal/negative/large "
         "times, type bits with new-combo/colour bits, random hitsound fields, 0-120 objects (thorough 0-300), 0-40 timing "
         "lines mixing bpm/SV of both signs, sample events, metadata with ':' / non-ASCII / leading blanks, CRLF line ends, "
-        "extra sections; charts: finite doubles (dyadic stream and arbitrary stream) incl. negative and sub-ms offsets, bpm/SV "
+        "extra sections, U+2028/U+2029/U+0085/\\x0b/\\x0c/\\x1c-\\x1e inside values, tags and file names, half of the cases through "
+        "read_file / write_file on a temp file; charts: finite doubles (dyadic stream and arbitrary stream) incl. negative and sub-ms offsets, bpm/SV "
         "of both signs; malformed lines/texts compared on the error class. non-trivial = at least one object or timing line "
         "off the defaults (x off the column centre, fractional/negative time, ':' in a value, malformed field)")
 ASSUMPTIONS = [
@@ -79,6 +87,11 @@ def err_class(e):
 NAMES = ["", "", "a.wav", "clap.wav", "hit normal.wav", "音.wav", "ß-drum.ogg", "soft-hitclap2.wav", "x", "é"]
 WORDS = ["Tribal Trial", "a:b", "Re:Zero", "12:30 AM", "夜に駆ける", "Ünïcode", "x", "A - B", "feat. C", "::", "a: b :c",
          "1", "ver 2.0", "ß", "Murumoo's EXHAUST", "[bracket]", "a,b", "//not a comment", "Title:nested", "é è"]
+# characters that `str.splitlines()` treats as line ends but the .osu format (and `split("\n")`) does not; Python's
+# `str.strip()` removes them at the ends of a line or value, so they are placed *inside* values
+ODD = ["\u2028", "\u2029", "\x85", "\x0b", "\x0c", "\x1c", "\x1d", "\x1e"]
+ODD_WORDS = ["a\u2028b", "k\u2029l", "x\x85y", "p\x0bq", "m\x0cn", "r\x1cs", "t\x1du", "v\x1ew", "夜\u2028に", "é\x85è:ü"]
+ODD_NAMES = ["cl\u2028ap.wav", "a\x1cb.wav", "h\x85it.ogg", "n\x0bm.wav", "音\u2029.wav", "s\x0c.wav", "q\x1dq", "w\x1ew.wav"]
 TAGWORDS = ["BEMANI", "KONAMI", "SDVX", "V", "5", "a:b", "音楽", "x-y", "Instrumental", "ü"]
 E_BPMS = [50, 60, 75, 100, 120, 125, 128, 150, 160, 200, 240, 250, 300, 375, 37.5, 62.5, 93.75, 187.5, 480, 600]
 META_DEFAULT = dict(audio_file_name="", audio_lead_in=0, preview_time=-1, countdown=False, sample_set=0, stack_leniency=0.7,
@@ -117,14 +130,14 @@ def gen_time_text(rng):
     return rng.choice(["0", "-0", "1e3", "2.5e2", "007", "+15", ".5", "12."])
 
 
-def gen_obj_line(rng, k, hold=None):
+def gen_obj_line(rng, k, hold=None, odd=False):
     c = rng.randrange(k)
     lo, hi = col_range(c, k)
     x = rng.choice([lo, hi, rng.randint(lo, hi), (512 * c + 256) // k])
     y = rng.choice([192, 192, 0, rng.randint(0, 384)])
     t = gen_time_text(rng)
     hs = rng.choice([0, 0, 2, 4, 8, 10, 15])
-    ex = f"{rng.randint(0, 3)}:{rng.randint(0, 3)}:{rng.choice([0, 0, 1, 7, 99])}:{rng.choice([0, 0, 30, 70, 100])}:{rng.choice(NAMES)}"
+    ex = f"{rng.randint(0, 3)}:{rng.randint(0, 3)}:{rng.choice([0, 0, 1, 7, 99])}:{rng.choice([0, 0, 30, 70, 100])}:{rng.choice(NAMES + (ODD_NAMES if odd else []))}"
     if hold is None:
         hold = rng.random() < 0.35
     if hold:
@@ -167,17 +180,18 @@ def gen_timing_line(rng, kind=None):
             f"{1 if kind == 'bpm' else 0},{rng.choice([0, 0, 1])}")
 
 
-def gen_sample_line(rng):
-    f = rng.choice(['"clap.wav"', '"a b.ogg"', '"音.wav"', 'noquote.wav', '""', '"x:y.wav"'])
+def gen_sample_line(rng, odd=False):
+    f = rng.choice(['"clap.wav"', '"a b.ogg"', '"音.wav"', 'noquote.wav', '""', '"x:y.wav"'] + (['"%s"' % n for n in ODD_NAMES] if odd else []))
     return f"Sample,{gen_time_text(rng)},0,{f},{rng.choice([0, 50, 70, 100])}"
 
 
 def gen_text(rng, tier):
     k = rng.choice(list(range(1, 19)) + [4, 7])
     pad = lambda: rng.choice(["", "", " "])
-    word = lambda: rng.choice(WORDS)
+    odd = rng.random() < 0.4
+    word = lambda: rng.choice(ODD_WORDS if (odd and rng.random() < 0.5) else WORDS)
     L = ["osu file format v14", "", "[General]"]
-    gen = [f"AudioFilename:{pad()}{rng.choice(['audio.mp3', 'a b.ogg', '音.mp3', ''])}",
+    gen = [f"AudioFilename:{pad()}{rng.choice(['audio.mp3', 'a b.ogg', '音.mp3', ''] + (ODD_NAMES if odd else []))}",
            f"AudioLeadIn: {rng.choice([0, 0, 1500, -3])}", f"PreviewTime: {rng.choice([-1, 86398, 0])}",
            f"Countdown: {rng.choice([0, 1, 2])}", f"SampleSet: {rng.choice(['Soft', 'Normal', 'Drum', 'None', 'Other'])}",
            f"StackLeniency: {rng.choice(['0.7', '1', '0.25'])}", f"Mode: {rng.choice([3, 3, 0])}",
@@ -195,7 +209,7 @@ def gen_text(rng, tier):
           f"GridSize: {rng.choice([4, 8, 32])}", f"TimelineZoom: {rng.choice(['1.9', '0.3', '1'])}", "", "[Metadata]"]
     md = [f"Title:{pad()}{word()}", f"TitleUnicode:{pad()}{word()}", f"Artist:{pad()}{word()}", f"ArtistUnicode:{word()}",
           f"Creator:{word()}", f"Version:{word()}{pad()}", f"Source:{rng.choice(['', word()])}",
-          "Tags:" + rng.choice(["", " ".join(rng.choice(TAGWORDS) for _ in range(rng.randint(0, 6))),
+          "Tags:" + rng.choice(["", " ".join(rng.choice(TAGWORDS + (ODD_WORDS if odd else [])) for _ in range(rng.randint(0, 6))),
                                 "a  b   c", " lead trail "]),
           f"BeatmapID:{rng.choice([0, 2062527])}", f"BeatmapSetID:{rng.choice([-1, 965664])}"]
     md = [g for g in md if rng.random() < 0.93]
@@ -207,7 +221,7 @@ def gen_text(rng, tier):
     if rng.random() < 0.15:
         rng.shuffle(df)
     L += df + ["", "[Events]", "//Background and Video events",
-               f'0,0,"{rng.choice(["BG.png", "b g.jpg", "背景.png", ""])}",{rng.choice([0, 5])},0', "//Break Periods"]
+               f'0,0,"{rng.choice(["BG.png", "b g.jpg", "背景.png", ""] + (ODD_NAMES if odd else []))}",{rng.choice([0, 5])},0', "//Break Periods"]
     if rng.random() < 0.3:
         L.append("2,1000,2000")
     L += ["//Storyboard Layer 0 (Background)", "//Storyboard Layer 1 (Fail)", "//Storyboard Layer 2 (Pass)",
@@ -216,7 +230,7 @@ def gen_text(rng, tier):
         L.append("//Storyboard Layer 4 (Overlay)")
     L.append("//Storyboard Sound Samples")
     for _ in range(rng.choice([0, 0, 1, 2, 5])):
-        L.append(gen_sample_line(rng))
+        L.append(gen_sample_line(rng, odd))
     L += ["", "[TimingPoints]"]
     ntp = rng.choice([0, 1, 1, 2, 3, 5, 10, 40])
     for _ in range(ntp):
@@ -228,7 +242,7 @@ def gen_text(rng, tier):
     mx = 300 if tier == "thorough" else 120
     nobj = rng.choice([0, 1, 2, 3, 5, 8, 20, 60, mx])
     for _ in range(nobj):
-        L.append(gen_obj_line(rng, k))
+        L.append(gen_obj_line(rng, k, odd=odd))
     if rng.random() < 0.5:
         L.append("")
     eol = rng.choice(["", "", "\r", " "])
@@ -330,8 +344,8 @@ def gen_offset(rng, exact):
     return rng.uniform(1e7, 3e7)
 
 
-def gen_name(rng):
-    return rng.choice(NAMES)
+def gen_name(rng, odd=False):
+    return rng.choice(NAMES + (ODD_NAMES if odd else []))
 
 
 def gen_chart(rng, tier, small=False):
@@ -341,6 +355,7 @@ def gen_chart(rng, tier, small=False):
     nh = rng.choice([0, 1, 2, 3, 8, 20, mx])
     nl = rng.choice([0, 0, 1, 2, 5, mx // 3])
     grid = [gen_offset(rng, exact) for _ in range(rng.randint(1, 6))]
+    odd = rng.random() < 0.4
 
     def off():
         return rng.choice(grid) if rng.random() < 0.25 else gen_offset(rng, exact)
@@ -348,7 +363,7 @@ def gen_chart(rng, tier, small=False):
     def note():
         return dict(offset=off(), column=rng.randrange(k), hitsound_set=rng.choice([0, 0, 2, 8, 15]),
                     sample_set=rng.randint(0, 3), addition_set=rng.randint(0, 3), custom_set=rng.choice([0, 0, 1, 42]),
-                    volume=rng.choice([0, 0, 30, 100]), hitsound_file=gen_name(rng))
+                    volume=rng.choice([0, 0, 30, 100]), hitsound_file=gen_name(rng, odd))
     hits = [note() for _ in range(nh)]
     holds = []
     for _ in range(nl):
@@ -377,15 +392,20 @@ def gen_chart(rng, tier, small=False):
         svs.append(dict(offset=off(), multiplier=v, **tp()))
     meta = dict(META_DEFAULT)
     meta["tags"] = []
-    meta["samples"] = [dict(offset=off(), sample_file=rng.choice(['"clap.wav"', '"a b.ogg"', '"音.wav"', 'n.wav', '""']),
+    meta["samples"] = [dict(offset=off(), sample_file=rng.choice(['"clap.wav"', '"a b.ogg"', '"音.wav"', 'n.wav', '""'] +
+                                                                 (['"%s"' % n for n in ODD_NAMES] if odd else [])),
                             volume=rng.choice([0, 50, 70, 100])) for _ in range(rng.choice([0, 0, 1, 3]))]
     meta["circle_size"] = float(k)
     if rng.random() < 0.8:
         w = lambda: rng.choice(WORDS)
-        meta.update(audio_file_name=rng.choice(["audio.mp3", "a b.ogg", "音.mp3", ""]), title=w(), title_unicode=w(), artist=w(),
-                    artist_unicode=w(), creator=w(), version=w(), source=rng.choice(["", w()]),
-                    background_file_name=rng.choice(["BG.png", "b g.jpg", "背景.png", ""]),
-                    tags=[rng.choice(TAGWORDS) for _ in range(rng.randint(0, 5))],
+        wo = lambda: rng.choice(ODD_WORDS if (odd and rng.random() < 0.5) else WORDS)
+        # title / artist go through unidecode, which turns U+2028 / U+2029 into line breaks (finding D102): drawn from a
+        # vocabulary without them except in the rare witness cases below
+        wa = lambda: rng.choice((["x\x85y", "p\x0bq", "r\x1cs"] if (odd and rng.random() < 0.3) else []) or WORDS)
+        meta.update(audio_file_name=rng.choice(["audio.mp3", "a b.ogg", "音.mp3", ""] + (ODD_NAMES if odd else [])), title=wa(),
+                    title_unicode=wo(), artist=wa(), artist_unicode=wo(), creator=wo(), version=wo(), source=rng.choice(["", wo()]),
+                    background_file_name=rng.choice(["BG.png", "b g.jpg", "背景.png", ""] + (ODD_NAMES if odd else [])),
+                    tags=[rng.choice(TAGWORDS + (ODD_WORDS if odd else [])) for _ in range(rng.randint(0, 5))],
                     audio_lead_in=rng.choice([0, 1500, 999999]), preview_time=rng.choice([-1, 86398, 12.75, -0.5]),
                     countdown=rng.random() < 0.5, sample_set=rng.randint(0, 3), stack_leniency=rng.choice([0.7, 1.0, 0.123456789]),
                     mode=rng.choice([3, 3, 0]), letterbox_in_breaks=rng.random() < 0.5, special_style=rng.random() < 0.5,
@@ -399,6 +419,9 @@ def gen_chart(rng, tier, small=False):
         # numbers that ':g' (6 significant digits) would not keep — the witness domain of the repaired finding D30
         key = rng.choice(["audio_lead_in", "hp_drain_rate", "overall_difficulty", "distance_spacing", "timeline_zoom"])
         meta[key] = rng.choice([1000000, 1234567, 20000000]) if key == "audio_lead_in" else rng.choice([7.1234567, 1 / 3, 0.12345678])
+    if rng.random() < 0.02:
+        # a romanised title / artist whose transliteration contains a line break (known finding D102)
+        meta[rng.choice(["title", "artist"])] = rng.choice(["a\u2028b", "夜\u2029に", "x\u2028"])
     return dict(meta=meta, bpms=bpms, svs=svs, hits=hits, holds=holds)
 
 
@@ -414,13 +437,14 @@ def gen(rng, tier, i):
         return dict(claim="col", k=k, c=rng.randrange(k))
     if r < 0.22:
         return gen_bad_line(rng)
+    via = "file" if rng.random() < 0.5 else "lines"
     if r < 0.50:
-        return dict(claim="read", lines=gen_text(rng, tier))
+        return dict(claim="read", via=via, lines=gen_text(rng, tier))
     if r < 0.60:
         return gen_bad_text(rng, tier)
     if r < 0.85:
-        return dict(claim="write", chart=gen_chart(rng, tier))
-    return dict(claim="cycle", chart=gen_chart(rng, tier, small=True))
+        return dict(claim="write", via=via, chart=gen_chart(rng, tier))
+    return dict(claim="cycle", via=via, chart=gen_chart(rng, tier, small=True))
 
 
 def corpus():
@@ -437,6 +461,16 @@ def corpus():
     # D01 witness (Title:a:b) and D02 witness (x=256 at 10K) inside a whole text
     c.append(dict(claim="read", lines=base))
     c.append(dict(claim="read", lines=[l + "\r" for l in base]))
+    # the FILE entry point with characters that str.splitlines() (but not the format) treats as line ends — inside a
+    # title, a version, tags, the audio file name, a hitsound file name and a sample file name
+    oddtext = ["osu file format v14", "", "[General]", "AudioFilename: au\u2028dio.mp3", "", "[Metadata]", "Title:a\u2028b",
+               "Version:x\x85y\x1cz", "Tags:p\x0bq r\u2029s", "", "[Difficulty]", "CircleSize:4", "", "[Events]",
+               "//Background and Video events", '0,0,"B\x0cG.png",0,0', "//Storyboard Sound Samples",
+               'Sample,24565,0,"cl\x1dap.wav",70', "", "[TimingPoints]", "565.0,363.636363636364,4,2,1,60,1,0", "", "",
+               "[HitObjects]", "64,192,565,1,0,0:0:0:0:h\x1eit.wav", "448,192,1000,128,0,2000:0:0:0:0:n\u2028m.wav"]
+    c.append(dict(claim="read", via="file", lines=oddtext))
+    c.append(dict(claim="read", via="lines", lines=oddtext))
+    c.append(dict(claim="read", via="file", lines=[l + "\r" for l in base]))
     c.append(dict(claim="badtext", lines=["bad_string"]))
     c.append(dict(claim="badtext", lines=[]))
     c.append(dict(claim="badtext", lines=["Title", "[TimingPoints]", "[HitObjects]"]))
@@ -461,6 +495,16 @@ def corpus():
                         dict(offset=-10.5, column=3, length=5.25, hitsound_set=0, sample_set=0, addition_set=0, custom_set=0,
                              volume=0, hitsound_file="")])
     c.append(dict(claim="write", chart=chart))
+    # the same chart through write_file / read_file, with odd characters inside values and file names
+    import copy
+    ch2 = copy.deepcopy(chart)
+    ch2["meta"].update(title="x\x85y", title_unicode="夜\u2028に", version="v\x1c1", creator="k\u2029l", tags=["t\x0bg", "u"],
+                       audio_file_name="au\u2028dio.mp3", background_file_name="B\x0cG.png")
+    ch2["meta"]["samples"] = [dict(offset=12.9, sample_file='"cl\x1dap.wav"', volume=33)]
+    ch2["hits"][1]["hitsound_file"] = "h\x1eit.wav"
+    ch2["holds"][0]["hitsound_file"] = "n\u2028m.wav"
+    c.append(dict(claim="write", via="file", chart=ch2))
+    c.append(dict(claim="cycle", via="file", chart=ch2))
     c.append(dict(claim="cycle", chart=chart))
     c.append(dict(claim="write", chart=dict(meta=dict(META_DEFAULT), bpms=[], svs=[], hits=[], holds=[])))
     # two holds of one column whose quantized images can be paired in a wrong way (a greedy pairing in the "< 1 ms"
@@ -932,6 +976,13 @@ def run_line(case, drv):
                 nontrivial=True, maxdev=c.maxdev, detail=detail)
 
 
+def _tmp_path():
+    import tempfile
+    fd, path = tempfile.mkstemp(prefix="c01-", suffix=".osu", dir="/tmp")
+    os.close(fd)
+    return path
+
+
 def _impl_read(lines):
     OsuMap = _imports()["OsuMap"]
     try:
@@ -940,9 +991,37 @@ def _impl_read(lines):
         return ("err", err_class(e))
 
 
+def _impl_read_text(text):
+    """OsuMap.read_file on a file that holds exactly `text` (utf-8, no newline translation on our side)"""
+    OsuMap = _imports()["OsuMap"]
+    path = _tmp_path()
+    try:
+        with open(path, "w", encoding="utf8", newline="") as f:
+            f.write(text)
+        try:
+            return ("ok", extract(OsuMap.read_file(path)))
+        except Exception as e:
+            return ("err", err_class(e))
+    finally:
+        os.remove(path)
+
+
+def D102(meta):
+    """predicate of the known finding D102: unidecode turns U+2028 / U+2029 of title / artist into line breaks"""
+    from unidecode import unidecode
+    return any("\n" in unidecode(meta[k]) or "\r" in unidecode(meta[k]) for k in ("title", "artist"))
+
+
 def run_read(case, drv):
     lines = case["lines"]
-    impl = _impl_read(lines)
+    via = case.get("via", "lines")
+    if via == "file":
+        # the FILE entry point: the text on disk is "\n".join(lines); the model says what lines read_file sees
+        text = "\n".join(lines)
+        impl = _impl_read_text(text)
+        lines = drv.call("c01.file_lines", text=text)["ok"]
+    else:
+        impl = _impl_read(lines)
     m = drv.call("c01.read", lines=lines)
     sp = drv.call("c01.denote", lines=lines)
     wf = drv.call("c01.wf", lines=lines)["ok"]
@@ -964,6 +1043,9 @@ def run_read(case, drv):
         if dom:
             ok = cmp_chart(cs, impl[1], sp["ok"], "spec")
         tags = ["ok"]
+    tags.append("via-" + via)
+    if any(ch in l for l in lines for ch in ODD):
+        tags.append("odd-chars")
     n = 0
     if impl[0] == "ok":
         n = len(impl[1]["hits"]) + len(impl[1]["holds"]) + len(impl[1]["bpms"]) + len(impl[1]["svs"])
@@ -1026,34 +1108,53 @@ def _check_numbers(ch):
     return True
 
 
+def _impl_write_text(m, via):
+    """the text the implementation produces: "\n".join(write()) or, through the file entry point, what write_file
+    leaves on disk"""
+    if via == "file":
+        path = _tmp_path()
+        try:
+            m.write_file(path)
+            with open(path, "r", encoding="utf8", newline="") as f:
+                return f.read()
+        finally:
+            os.remove(path)
+    return "\n".join(str(l) for l in m.write())
+
+
 def run_write(case, drv, cycle=False):
     OsuMap = _imports()["OsuMap"]
     ch = case["chart"]
+    via = case.get("via", "lines")
     c_w, c_s, c_r = Cmp(), Cmp(), Cmp()
-    tags = []
+    tags = ["via-" + via]
     try:
         m = build_map(ch)
-        impl_lines = [str(l) for l in m.write()]
-        impl = ("ok", impl_lines)
+        impl_text = _impl_write_text(m, via)
+        impl = ("ok", impl_text)
     except Exception as e:
         impl = ("err", err_class(e))
     wire, boundary = _wire_with_boundary(ch, uni=False)
-    model_lines = render(drv.call("c01.write", chart=wire)["ok"])
+    model_text = "\n".join(render(drv.call("c01.write", chart=wire)["ok"]))
     lossy = g_lossy(ch["meta"])
+    d102 = D102(ch["meta"])
     if impl[0] == "err":
         return dict(claim=case["claim"], ok=False, agree=False, dom=True, tags=["write-raises", impl[1]], nontrivial=True,
                     detail=dict(impl=impl))
-    agree = impl_lines == model_lines
+    agree = impl_text == model_text
     if not agree:
-        for a, b in zip(impl_lines, model_lines):
+        il, ml = impl_text.split("\n"), model_text.split("\n")
+        for a, b in zip(il, ml):
             if a != b:
                 c_w.why.append(f"line impl {a!r} vs model {b!r}")
                 break
-        if len(impl_lines) != len(model_lines):
-            c_w.why.append(f"{len(impl_lines)} lines vs {len(model_lines)}")
+        if len(il) != len(ml):
+            c_w.why.append(f"{len(il)} lines vs {len(ml)}")
     # (S) the text is well formed and denotes the quantized chart
-    text = "\n".join(impl_lines)
-    file_lines = text.split("\n")
+    if via == "file":
+        file_lines = drv.call("c01.file_lines", text=impl_text)["ok"]
+    else:
+        file_lines = impl_text.split("\n")
     wire_u, _ = _wire_with_boundary(ch, uni=True)
     q = drv.call("c01.quantize", chart=wire_u)["ok"]
     sp = drv.call("c01.denote", lines=file_lines)
@@ -1064,8 +1165,8 @@ def run_write(case, drv, cycle=False):
         c_s.why.append(f"written text is not well formed / not denotable: {sp.get('err')} {wf}")
     else:
         ok &= cmp_lean_charts(c_s, sp["ok"], q, "denote(write) vs quantize")
-    # (S) reading what was written
-    back = _impl_read(file_lines)
+    # (S) reading what was written — through the same entry point
+    back = _impl_read_text(impl_text) if via == "file" else _impl_read(file_lines)
     if back[0] == "err":
         ok = False
         c_r.why.append(f"reading the written text raises {back[1]}")
@@ -1074,14 +1175,16 @@ def run_write(case, drv, cycle=False):
     # (S) times moved by less than 1 ms, columns kept
     if ok and back[0] == "ok":
         ok &= moved_less_than_1ms(c_r, ch, back[1])
-    kf = None
+    kf = "D102" if (not ok and d102) else None
     n = len(ch["hits"]) + len(ch["holds"]) + len(ch["bpms"]) + len(ch["svs"])
     tags += ["K%d" % int(ch["meta"]["circle_size"]), "n%d" % min(3, n)] + (["g-lossy"] if lossy else [])
-    res = dict(claim=case["claim"], ok=ok, agree=agree, dom=True, kf=kf, tags=tags, nontrivial=n > 0, boundary=boundary,
+    if any(o in impl_text for o in ODD):
+        tags.append("odd-chars")
+    res = dict(claim=case["claim"], ok=ok, agree=agree, dom=not d102, kf=kf, tags=tags, nontrivial=n > 0, boundary=boundary,
                maxdev=max(c_s.maxdev, c_r.maxdev),
                detail={} if (ok and agree) else dict(why_write=c_w.why[:4], why_spec=c_s.why[:6], why_read=c_r.why[:6]))
     if cycle:
-        res["_text"] = file_lines
+        res["_text"] = impl_text
         res["_back"] = back
     return res
 
@@ -1162,6 +1265,7 @@ def moved_less_than_1ms(c, ch, back):
 
 def run_cycle(case, drv):
     OsuMap = _imports()["OsuMap"]
+    via = case.get("via", "lines")
     first = run_write(dict(case, claim="cycle"), drv, cycle=True)
     text1, back1 = first.pop("_text", None), first.pop("_back", None)
     if not first["ok"] or not first["agree"] or back1 is None or back1[0] != "ok":
@@ -1170,21 +1274,35 @@ def run_cycle(case, drv):
     ok = True
     texts = [text1]
     gen1 = back1[1]
-    cur_lines = text1
+    cur = text1
+    path = _tmp_path()
     try:
         for g in range(2, 5):
-            m = OsuMap.read(list(cur_lines))
-            cur_lines = "\n".join(str(l) for l in m.write()).split("\n")
-            texts.append(cur_lines)
-            chart_g = extract(OsuMap.read(list(cur_lines)))
+            if via == "file":
+                with open(path, "w", encoding="utf8", newline="") as f:
+                    f.write(cur)
+                m = OsuMap.read_file(path)
+                m.write_file(path)
+                with open(path, "r", encoding="utf8", newline="") as f:
+                    cur = f.read()
+                chart_g = extract(OsuMap.read_file(path))
+            else:
+                m = OsuMap.read(cur.split("\n"))
+                cur = "\n".join(str(l) for l in m.write())
+                chart_g = extract(OsuMap.read(cur.split("\n")))
+            texts.append(cur)
             okg = cmp_plain(c, chart_g, gen1, f"generation {g} vs 1")
             ok &= okg
     except Exception as e:
         ok = False
         c.why.append(f"generation raises {type(e).__name__}: {e}")
+    finally:
+        if os.path.exists(path):
+            os.remove(path)
     if ok:
         # no drift in the text either (timing lines carry a recomputed double, compared through the charts above)
-        def strip_tp(ls):
+        def strip_tp(t):
+            ls = t.split("\n")
             i, j = ls.index("[TimingPoints]"), ls.index("[HitObjects]")
             return ls[:i] + ls[j:]
         if strip_tp(texts[2]) != strip_tp(texts[1]):
